@@ -68,7 +68,7 @@ type tierCfg struct {
 // per-property defaults: cases are spread over the workers; the budget is the
 // wall-clock limit of each worker.
 var tiers = map[string]map[string]tierCfg{
-	"C09": {"quick": {160, 90}, "thorough": {4800, 1500}},
+	"C09": {"quick": {320, 90}, "thorough": {4800, 1500}},
 	"C08": {"quick": {28000, 150}, "thorough": {5000000, 1500}},
 	"C10": {"quick": {3200, 90}, "thorough": {8000000, 1200}},
 	"C06": {"quick": {66000, 150}, "thorough": {20000000, 1200}},
